@@ -200,7 +200,8 @@ def judge (tsTok : String) (ts : Syntax) (dict : Tag → Option VR) (tree : Elem
     | .error m => .error m
     | .ok () =>
       -- model: bytes, then reader + builder on the real bytes
-      if !modelBytesMatch then
+      if treeNonAscii tree && (match model with | .error _ => true | .ok _ => false) then .ok "u"
+      else if !modelBytesMatch then
         .error s!"MODEL-DIFF call={call} write model={match model with | .ok mb => hexOf mb | .error _ => "err"} impl={hexOf (seen.getD raw)}"
       else
         match r, seen with
